@@ -12,6 +12,7 @@ import (
 	"os/exec"
 	"path/filepath"
 	"sort"
+	"strconv"
 	"strings"
 	"sync"
 	"sync/atomic"
@@ -990,9 +991,16 @@ func TestC06(t *testing.T) {
 	violCtx := map[string]*scenCtx{}
 	var skipped int64
 	stats := make([]blockStats, len(ctxs))
+	// the soft budget covers the enumeration only: building the program and tracing it cost what the
+	// machine's load dictates and must not eat the time in which the crash states are checked
+	budget := time.Duration(r.Pick(60, 720)) * time.Second
+	if bs, err := strconv.Atoi(os.Getenv("VERIF_BUDGET_S")); err == nil && bs > 0 {
+		budget = time.Duration(bs) * time.Second
+	}
+	enumStart := time.Now()
 	eng.ParallelFor(len(blocks), func(bi int) {
 		b := blocks[bi]
-		if r.TimeUp() {
+		if time.Since(enumStart) > budget {
 			atomic.AddInt64(&skipped, 1)
 			return
 		}
@@ -1031,8 +1039,12 @@ func TestC06(t *testing.T) {
 	for _, k := range keys {
 		f, c := viol[k], violCtx[k]
 		cc := c.describe(tier, f.it, f.v, f.tg, f.o, f.cls)
-		msg := fmt.Sprintf("scenario %s: crash after %d operations (last: %s) with %s lost leaves %s at %s; allowed: %s | %s",
-			c.sc.Name, f.it.p, lastOp(c.tr, f.it.p), strings.Join(cc.Dropped, "; "), kindText(f.o), cc.Target.Path,
+		lost := "nothing lost (everything executed so far is on disk)"
+		if len(cc.Dropped) > 0 {
+			lost = "not persisted: " + strings.Join(cc.Dropped, "; ")
+		}
+		msg := fmt.Sprintf("scenario %s: crash after %d operations (last: %s), %s: leaves %s at %s; allowed: %s | %s",
+			c.sc.Name, f.it.p, lastOp(c.tr, f.it.p), lost, kindText(f.o), cc.Target.Path,
 			firstN(cc.AllowedOld, 80), firstN(cc.AllowedNew, 80))
 		r.Violation(k, msg, cc)
 	}
@@ -1094,6 +1106,7 @@ func TestC06(t *testing.T) {
 		"state_pad_bytes": r.Pick(96, 1500), "max_pending_data_ops_full_product": maxPendingFull, "tear_granularity_bytes": 1})
 	r.Info("build_s", buildS)
 	r.Info("trace_s", traceS)
+	r.Info("enumeration_s", time.Since(enumStart).Seconds())
 	r.Info("trace_state_first", ctxs[0].tr.opsSignature())
 
 	// samples: a state in the window between rename and directory fsync, a torn multi-write state, the longest prefix
